@@ -214,6 +214,12 @@ def run_check(check, tier, seed, replay=None, max_cases=None):
     known_hits = {}
     harness_errors = []
     deadline = t0 + budget + (t_drv + t_prop)
+    if proof_broken or tr_problems:
+        # a proof obligation / translator tie no longer checks: widen the search for a concrete failing input
+        ncases *= 3
+        deadline += budget
+        log(f"[{pid}] broken tie ({[b.get('decl') for b in proof_broken][:6]} {tr_problems[:2]}): "
+            f"searching {ncases} cases for a failing input")
 
     def process_batch(cases, src):
         if not cases:
